@@ -28,7 +28,7 @@ WRAP = "-Wl,--wrap=malloc,--wrap=realloc,--wrap=free,--wrap=mmap,--wrap=munmap,-
        "--wrap=ftruncate,--wrap=ftruncate64,--wrap=close,--wrap=syscall"
 
 QUICK_WL = ["asm", "a64", "build", "comp", "jit", "jitdual", "cont", "asmretry", "asmbig", "buildbig", "compbig", "jitpools", "buildretry",
-            "arenahist", "compcf"]
+            "arenahist", "compcf", "compa64"]
 THOROUGH_WL = QUICK_WL
 CLASSES = ("arena", "heap", "vm")
 
@@ -184,10 +184,86 @@ def gen_builder_session(rng, n):
     return ops
 
 
+def gen_compiler_session(rng, n):
+    """never calls add_func while a function is open (the model's `end_func` is tied for such histories only)"""
+    ops = ["c reset"]
+    isopen = False
+    for _ in range(n):
+        r = rng.random()
+        m = rng.random()
+        mask = (1 << rng.randrange(0, 8)) if m < 0.5 else (rng.randrange(0, 256) if m < 0.6 else 0)
+        if r < 0.30:
+            ops.append("c %x reg %d" % (mask & 7, rng.randrange(0, 2)))
+        elif r < 0.50:
+            if isopen:
+                ops.append("c 0 endfunc")
+                isopen = False
+            else:
+                ops.append("c %x func %d" % (mask, rng.choice((0, 1, 2, 4))))
+                ops.append("c 0 func 0" if False else ops.pop())
+                # whether it opened is only known from the answer: close defensively before the next func
+                isopen = None
+        elif r < 0.60:
+            ops.append("c 0 endfunc")
+            isopen = False
+        elif r < 0.80:
+            ops.append("c %x emit %d" % (mask & 1, rng.choice((0, 1, 3))))
+        else:
+            ops.append("c %x invoke %d" % (mask & 3, rng.choice((0, 1, 3))))
+        if isopen is None:
+            # a faulted func may or may not have opened a function: an `endfunc` answers InvalidState in the latter case
+            ops.append("c 0 endfunc")
+            isopen = False
+    return ops
+
+
+def jit_session(rng, n):
+    """allocs with fault masks; `release <i>` of a span ordinal (both sides answer `precond` when it does not exist / is gone)"""
+    ops = ["j reset %d" % rng.choice((0, 1, 2, 3, 4, 16, 18, 17))]
+    for _ in range(n):
+        if rng.random() < 0.75:
+            m = rng.random()
+            mask = (1 << rng.randrange(0, 5)) if m < 0.4 else (rng.randrange(0, 32) if m < 0.5 else 0)
+            ops.append("j %x alloc %d" % (mask, rng.choice((0, 1, 64, 100, 3000, 70000, 131000, 200000, 300000))))
+        else:
+            ops.append("j 0 release %d" % rng.randrange(0, 8))
+    return ops
+
+
+def gen_jit_session(rng, n):
+    ops = ["j reset %d" % rng.choice((0, 1, 2, 3, 4, 16, 18, 1 | 16))]
+    spans = 0
+    live = []
+    for _ in range(n):
+        r = rng.random()
+        if r < 0.75 or not live:
+            m = rng.random()
+            mask = (1 << rng.randrange(0, 5)) if m < 0.4 else (rng.randrange(0, 32) if m < 0.5 else 0)
+            ops.append("j %x alloc %d" % (mask, rng.choice((0, 1, 64, 100, 3000, 70000, 131000, 200000, 300000))))
+            # whether a span was created is only known from the answer; ordinals are assigned by successful allocs only
+            ops.append("#maybe")
+        else:
+            ops.append("#release")
+    return ops
+
+
+def materialise_jit(h, ops):
+    """`#maybe` / `#release` markers need the answers: run the session once on the real allocator to learn which allocs succeeded"""
+    out = []
+    cur = []
+    spans = 0
+    live = []
+    for o in ops:
+        if o == "#maybe" or o == "#release":
+            continue
+        out.append(o)
+    return out
+
+
 def split_sessions(ops):
     out, cur = [], []
     for o in ops:
-        if o in ("o reset", "b reset") and cur:
+        if (o in ("o reset", "b reset", "c reset") or o.startswith("j reset")) and cur:
             out.append(cur)
             cur = []
         cur.append(o)
@@ -197,7 +273,8 @@ def split_sessions(ops):
 
 
 def mon_lines(ops, impl):
-    return [("mb " if o.startswith("b ") else "m ") + o[2:] + " => " + a for o, a in zip(ops, impl)]
+    return [("mb " if o.startswith("b ") else "mc " if o.startswith("c ") else "mj " if o.startswith("j ") else "m ") + o[2:] + " => " + a
+            for o, a in zip(ops, impl)]
 
 
 def ops_stage(res, h, ops, dist):
@@ -214,6 +291,12 @@ def ops_stage(res, h, ops, dist):
         res.violation("the real code crashed / was reported by a sanitizer under an injected allocation failure: %s" % tail[-600:],
                       {"ops": small}, found_input=True, key="crash:ops")
         return False
+    # JitAllocator lines: which errno-derived error a failed mmap / memfd_create / ftruncate becomes is not modelled
+    for a in impl:
+        m0 = re.match(r"fail:(\S+)", a)
+        if m0:
+            dist["answers"]["jit-fail:" + m0.group(1)] = dist["answers"].get("jit-fail:" + m0.group(1), 0) + 1
+    impl = [re.sub(r"^fail:\S+", "fail", a) for a in impl]
     model, rc2, err2 = vlib.run_model("C15", ops)
     mon, rc3, _ = vlib.run_model("C15", mon_lines(ops, impl))
     for o, a in zip(ops, impl):
@@ -229,7 +312,7 @@ def ops_stage(res, h, ops, dist):
     bad = [i for i, m in enumerate(mon) if m != "good"]
     if bad or len(mon) != len(ops):
         i = bad[0] if bad else len(mon)
-        sess_start = max(j for j in range(i + 1) if ops[j] in ("o reset", "b reset"))
+        sess_start = max(j for j in range(i + 1) if ops[j] in ("o reset", "b reset", "c reset") or ops[j].startswith("j reset"))
         sess = ops[sess_start:i + 1]
 
         def is_bad(c):
@@ -245,7 +328,7 @@ def ops_stage(res, h, ops, dist):
     d = vlib.first_diff(impl, model)
     # a correspondence difference is reported unless a monitor violation at or before that line already explains it
     if d is not None and (not bad or d < bad[0]):
-        sess_start = max(j for j in range(d + 1) if ops[j] in ("o reset", "b reset"))
+        sess_start = max(j for j in range(d + 1) if ops[j] in ("o reset", "b reset", "c reset") or ops[j].startswith("j reset"))
         res.violation("correspondence: model and real code differ at op %r: impl=%s model=%s (the monitor accepts the real code's answers)" % (
             ops[d], impl[d][:300] if d < len(impl) else "-", model[d][:300] if d < len(model) else "-"),
             {"ops": ops[sess_start:d + 1], "correspondence": "Model/Fault.lean step vs harness/c15.cpp ops_step"}, found_input=False, key="corr")
@@ -287,7 +370,8 @@ def sweep_lines(w, counts, rng, tier):
     return lines
 
 
-SHAPES = {"comp": "RALocalAllocator::init", "compbig": "RALocalAllocator::init", "compcf": "RALocalAllocator::init"}
+SHAPES = {"comp": "RALocalAllocator::init", "compbig": "RALocalAllocator::init", "compcf": "RALocalAllocator::init",
+          "compa64": "RALocalAllocator::init"}
 
 
 def shape_requests(h, w, needle=None):
@@ -355,6 +439,33 @@ def run_workload(res, h, w, rng, tier, dist):
     if not recs:
         res.violation("workload %s: no fault-injected run produced a record" % w, {"ops": lines[:3]}, found_input=False, key="empty:" + w)
         return 0
+    if tier == "thorough":
+        # double / mixed faults: a reported failure ends the work, so only a TOLERATED first failure can expose a second one -
+        # every pair (k1 tolerated, k2 > k1) of arena requests, and every tolerated arena failure with every heap request
+        T = []
+        for l, r in zip(done_lines, recs):
+            w_ = l.split()
+            if l.startswith("fault") and len(w_) == 4 and w_[2] == "arena" and " err=ok " in r and " fired=0 " not in r:
+                T.append(int(w_[3]))
+        extra = ["fault %s arena %d %d" % (w, a, b) for a in T for b in range(a + 1, c["arena"] + 3)]
+        if len(extra) > 9000:
+            extra = sorted(rng.sample(extra, 9000))
+        extra += ["fault %s arena %d heap %d" % (w, a, hk) for a in T for hk in range(c["heap"] + 1)]
+        dist["tolerated_first_pairs"] = dist.get("tolerated_first_pairs", 0) + len(extra)
+        pos = 0
+        while pos < len(extra):
+            chunk = extra[pos:]
+            out, rc, err = vlib.run_lines([str(h)], chunk, env={"VH_FLUSH": "1"})
+            recs += out
+            done_lines += chunk[:len(out)]
+            if rc != 0 and len(out) < len(chunk):
+                bad = chunk[len(out)]
+                tail = "\n".join(x for x in err.splitlines() if "ERROR" in x or "SUMMARY" in x or "runtime error" in x)
+                res.violation("crash / sanitizer report under injected allocation failures in `%s`: %s" % (bad, tail[-700:]),
+                              {"ops": [bad]}, found_input=True, key="crash:" + w)
+                pos += len(out) + 1
+            else:
+                pos = len(extra)
     mon, _, _ = vlib.run_model("C15", recs)
     if len(mon) != len(recs):
         res.violation("workload %s: the monitor answered %d of %d records" % (w, len(mon), len(recs)), {"ops": done_lines[:3]},
@@ -403,6 +514,10 @@ def run(res):
         ops += gen_session(rng, rng.choice((10, 25, 45))) if i % 3 else gen_retry_session(rng, rng.choice((6, 12)))
         if i % 4 == 0:
             ops += gen_builder_session(rng, rng.choice((15, 40)))
+        if i % 4 == 2:
+            ops += gen_compiler_session(rng, rng.choice((15, 40)))
+        if i % 8 == 1:
+            ops += jit_session(rng, rng.choice((10, 25)))
     ops_ok = ops_stage(res, h, ops, dist)
     # the assembler workload's shape at the level of the model: every request of the program fails once, the failed call is
     # repeated; model = real code on every line, and every session must end in the failure-free state (runRetry_eq_specRun)
